@@ -9,7 +9,9 @@ automatic object in the same program, which dumps all bytes of both (addresses a
                    `.byte/.quad` directives of `chibicc -S`                                            -> corr.disagreements
   spec  <-> gcc  : Spec/InitSpec.lean (6.7.9 as cursor semantics) against the bytes of the gcc-compiled program (gcc -std=gnu11)
                                                                                                       -> spec bug, reported as disagreement
-  model <-> spec : tree equality printed by the driver (the tested remainder of C05_parse_spec)        -> disagreement outside the known region
+  model <-> spec : PROVED (C05_parse_spec_partial, C05_count_partial: all types without flexible member, all token lists outside the
+                   regions over/xover/wide the specification computes); additionally tree equality printed by the driver on every case
+                   (covers flexible members; cross-checks the native driver against the theorem)      -> disagreement outside the regions
   code  <-> gcc, static <-> automatic : the property itself, on member bits only (padding masked)     -> corr.violations
 """
 import os, json, math, struct, hashlib
@@ -777,9 +779,43 @@ class Gen:
         toks.append('}')
         return {'ty': root, 'toks': toks, 'features': sorted(self.features), 'notes': sorted(notes)}
 
+    # ------------------------------------------------------------------ several relocations per object
+    def reloc_case(self):
+        """address constants inside unions, nested aggregates and arrays, several per object: write_gvar_data threads one
+        relocation cursor through the whole object (every branch must return the cursor of its recursive call), emit_data
+        consumes the list in address order; the static object is compared with its automatic twin and with gcc"""
+        rng = self.rng
+        self.features = set(['address-constant', 'several-relocations'])
+        notes = set()
+        ptr = lambda: rng.choice(PTRS)
+        def punion():
+            ms = [Mem('p', ptr()), Mem('n', rng.choice([BYNAME['long'], BYNAME['unsigned long'], BYNAME['int']]))]
+            if rng.random() < 0.5: ms.reverse()
+            return Agg(True, ms)
+        def pstruct():
+            return Agg(False, [Mem('a', ptr()), Mem('b', rng.choice([ptr(), BYNAME['int'], BYNAME['long']])), Mem('c', ptr())][:rng.choice([2, 3])])
+        def sunion():
+            return Agg(True, [Mem('s', pstruct()), Mem('n', BYNAME['long'])])
+        pieces = [punion, pstruct, sunion, ptr, lambda: Arr(punion(), rng.choice([2, 3])), lambda: Arr(ptr(), rng.choice([2, 3])),
+                  lambda: Arr(sunion(), 2)]
+        r = rng.random()
+        if r < 0.3:
+            t = Arr(rng.choice([punion, sunion, pstruct])(), rng.choice([2, 3, 4]))
+        else:
+            n = rng.choice([2, 3, 4])
+            ms = [Mem('m%d' % i, rng.choice(pieces)()) for i in range(n)]
+            ms.append(Mem('z', ptr()))
+            t = Agg(False, ms)
+        self.features.add('union-reloc')
+        toks = self.braced(t, True, 4, notes)
+        return {'ty': t, 'toks': toks, 'features': sorted(self.features), 'notes': sorted(notes)}
+
     def case(self):
-        if self.rng.random() < 0.07:
+        r0 = self.rng.random()
+        if r0 < 0.07:
             return self.range_case()
+        if r0 < 0.12:
+            return self.reloc_case()
         self.features = set()
         notes = set()
         t = self.top_type()
@@ -1092,8 +1128,20 @@ class Runner:
             corr.count('region:brace-override')
         if xover:
             corr.count('region:agg-expr-override')
-        if ' wide=1' in spec_txt:
+        wide = ' wide=1' in spec_txt
+        if wide:
             corr.count('wide-range-designator')
+        # how much of the generated input the general theorem C05_parse_spec_partial speaks about
+        if parse_ok and spec_ok:
+            if ' tyok=1' in spec_txt and not (over or xover or wide):
+                corr.count('in-scope-of:C05_parse_spec_partial')
+                if not m.get('spec', '').endswith('same=1'):
+                    # the theorem (kernel-checked) says this cannot happen: the native driver and the proved definitions differ
+                    corr.disagreements.append({'kind': 'driver-vs-theorem', 'input': {'driver_line': c['line']}, 'model': m.get('raw', '')[:300]})
+            elif ' tyok=0' in spec_txt:
+                corr.count('outside-theorem:flexible-member-type')
+            else:
+                corr.count('outside-theorem:region')
         # ---- rejected by a compiler
         if k in grej:
             corr.count('gcc_rejects')
@@ -1303,6 +1351,43 @@ def correspond(ctx, corr):
         if 'ctext' in c:
             corr.sample({'decl': c['ctext'], 'types': c['cdefs'], 'model': c['model'].get('static')})
     corr.extra['compilers'] = 'chibicc snapshot; gcc -std=gnu11 -w -O0 as the 6.7.9 oracle'
+    agg_expr_witness(ctx, corr)
+
+
+KNOWN_AGGEXPR = 'C05-agg-expr-then-member'
+AGGEXPR_WITNESS = r'''#include <stdio.h>
+struct T { int a, b; };
+struct U { struct T s; int c; };
+int main(void) {
+  struct T y = {5, 6};
+  struct T x[1] = {[0] = y, [0] = 1};
+  struct U u = {.s = y, .s = 7, 8};
+  printf("%d %d %d %d %d\n", x[0].a, x[0].b, u.s.a, u.s.b, u.c);
+  return 0;
+}
+'''
+
+def agg_expr_witness(ctx, corr):
+    """witness of the known finding C05-agg-expr-then-member (region InitSpec.AggExprOverride: a sub-object initialised by an
+    expression of struct/union type and then again, member-wise): replayed on the implementation with gcc as the oracle"""
+    d = os.path.join(ctx.scratch, 'aggexpr')
+    os.makedirs(d, exist_ok=True)
+    src = os.path.join(d, 'w.c')
+    open(src, 'w').write(AGGEXPR_WITNESS)
+    outs = {}
+    for name, cmd in (('chibicc', [ctx.cc, '-o', os.path.join(d, 'wc'), src]), ('gcc', ['gcc', '-std=gnu11', '-w', '-O0', '-o', os.path.join(d, 'wg'), src])):
+        rc, o, e = sh(cmd, cwd=d, timeout=120)
+        if rc != 0:
+            outs[name] = f'compile rc={rc} {e.strip()[-200:]}'
+            continue
+        rc, o, e = sh([os.path.join(d, 'wc' if name == 'chibicc' else 'wg')], cwd=d, timeout=60)
+        outs[name] = f'rc={rc} {o.strip()}'
+    corr.evaluations += 1
+    if outs.get('chibicc') != outs.get('gcc'):
+        if KNOWN_AGGEXPR not in corr.known_hits:
+            corr.known_hits.append(KNOWN_AGGEXPR)
+        corr.violations.append({'known_id': KNOWN_AGGEXPR, 'what': 'a sub-object initialised by a struct-valued expression and then again member-wise keeps the expression',
+                                'input': AGGEXPR_WITNESS, 'expected': outs.get('gcc'), 'got': outs.get('chibicc')})
 
 def search(ctx, broken, corr):
     """the proof or the tie broke without a direct violation: look for an oracle failure on more cases"""
@@ -1351,17 +1436,31 @@ MANIFEST = {
                   'the same object and both succeed (C05_backends_agree); every bit not covered by an initialised leaf is zero in both (C05_zero); '
                   'emit_data prints exactly the image, one .quad per relocation, one .byte per other byte, sizeof bytes in total (C05_emit); the '
                   'recursion fuel of the transcription of the 12 mutually recursive parser functions never changes an answer (C05_fuel_mono).  '
-                  'Parser = C11 6.7.9 (cursor-style specification) and unknown bound = largest index + 1 are proved on exhaustive small scopes '
-                  '(all token lists up to a length over four types, ~76,000 lists, kernel-evaluated) and kept as full statements; outside the scopes '
-                  'they are tested on every generated case.  The model is tied to the code on every run by compiling type-directed generated '
-                  'declarations with chibicc and comparing all bytes of the static and the automatic object, sizeof, and the .data directives of -S; '
-                  'the specification is validated against gcc on the same cases; chibicc is compared with gcc on member bits.',
+                  'Parser = C11 6.7.9: PROVED BY INDUCTION for every declared type without flexible array member (scalars, arrays, arrays of '
+                  'unknown bound, structs, unions, bit-fields, unnamed bit-fields, anonymous members, any depth) and EVERY token list outside three '
+                  'regions computed by the run of the specification (C05_parse_spec_partial: same Initializer tree, same rest): simulation of each of '
+                  'the 12 parser functions (initializer2, designation, array/struct_initializer1/2, union_initializer, string_initializer ...) by '
+                  'steps of a cursor-machine specification of 6.7.9p17-p22, brace elision, designators incl. anonymous members, continuation '
+                  'after a designator, excess elements, strings, union member selection (p10).  Unknown bound = largest index + 1 (p22): proved '
+                  '(C05_count_partial) by running count_array_init_elements (a dry run on a dummy tree), the real loop and the specification in '
+                  'lockstep; the dry run consumes the same tokens as the real run because every parser function commutes with erasing the tree.  '
+                  'The exhaustive small scopes (~76,000 token lists, kernel-evaluated) are kept; they also cover a flexible-member type and GNU ranges.  '
+                  'The model is tied to the code on every run by compiling type-directed generated declarations with chibicc and comparing all bytes '
+                  'of the static and the automatic object, sizeof, and the .data directives of -S; the specification is validated against gcc on the '
+                  'same cases; chibicc is compared with gcc on member bits.',
     'level_note': 'Trusted: Lean kernel; the hand model (tied by differential execution, which is testing); the token/expression abstraction done by the '
                   'generator; the 6.7.9 specification (validated against gcc 12); python layout of generated types (cross-checked by sizeof). '
-                  'C05_parse_spec and C05_count are _partial (finite scopes); the general mixture of designators and elided continuation is covered by '
-                  'the three-way correspondence only.  Known findings: C05-brace-override-keeps-old, C05-union-second-initializer.',
+                  'C05_parse_spec_Statement / C05_count_Statement stay open exactly for: declared structs with a flexible array member (exhaustive scope + '
+                  'tested tie only) and the three regions BraceOverride (known finding C05-brace-override-keeps-old), AggExprOverride (new finding: an '
+                  'initializer for a member reached without designator after a struct-valued expression initialised the struct is ignored), WideRange '
+                  '(GNU range over more than one element: chibicc re-parses per element; agrees with gcc when the initializer is braced/a string or a '
+                  'designator follows - those spellings are generated and compared).  Known findings: C05-brace-override-keeps-old, '
+                  'C05-union-second-initializer.',
     'technique': 'Lean 4: both back ends reduced to folds over one leaf list by structural recursion over the initializer tree; bit-level frame '
                  'reasoning over little-endian storage units for the bit-field merge; interval arithmetic over layouts; monotonicity of a 12-function '
-                 'mutual fuel recursion; executable 6.7.9 specification; whole-scope `decide +kernel`; three-way differential tie (model / chibicc / gcc)',
+                 'mutual fuel recursion; forward simulation (14 mutually dependent statements, induction on fuel) of the recursive-descent parser by a '
+                 'cursor machine, with monotone region flags making out-of-region runs vacuous; logical relation (same skeleton) through all parser '
+                 'functions; three-way lockstep for unknown bounds; executable 6.7.9 specification; whole-scope `decide +kernel`; three-way '
+                 'differential tie (model / chibicc / gcc)',
     'design_ref': 'DESIGN.md section 6, C05',
 }
